@@ -2468,7 +2468,9 @@ func (a *Association) handleData(chunkPayload *chunkPayloadData) []*packet {
 	expectedTSN := a.peerLastTSN() + 1
 	gapDetected := sna32GT(chunkPayload.tsn, expectedTSN)
 
-	sackNow := chunkPayload.immediateSack || gapDetected
+	// RFC 4960 sec 6.2: a packet carrying a DATA chunk that was already
+	// received MUST be acknowledged without delay.
+	sackNow := chunkPayload.immediateSack || gapDetected || !canPush
 	if state == shutdownSent {
 		sackNow = true
 	}
